@@ -153,6 +153,30 @@ def run(chk):
         for p in validate_font.validate(data, expect_names=None if "svg" in fmt else True, ctx=f"{fmt} gid-gaps: ",
                                         bitmap_gids=gids if bitmap else None):
             chk.violation(p, replay)
+    # a glyph map (hand-written, or from a custom generator) in which an UNMAPPED row repeats another row's glyph name: the
+    # build must refuse it, or else write a font that is still valid (one SVG range / one bitmap per glyph)
+    refused = 0
+    for k, fmt in enumerate(["untouchedsvg", "cbdt", "picosvg", "glyf_colr_1"] if quick else FORMATS):
+        bitmap = fmt in ("cbdt", "sbix")
+        cfg = build.base_config(color_format=fmt, keep_glyph_names=True, clip_to_viewbox=False, bitmap_resolution=48)
+        vb = (0, 0, 100, 100)
+        srcs = [build.Src(S.filename_for(S.CODEPOINTS[i]), c04.svg_for(i, vb), c04.png_for(i, 48, vb) if bitmap else None) for i in range(2)]
+        dup = build.Src("extra.svg", c04.svg_for(5, vb), c04.png_for(5, 48, vb) if bitmap else None, cps=(), glyph_name=srcs[k % 2].glyph_name)
+        srcs = srcs + [dup] if k % 2 == 0 else [srcs[0], dup, srcs[1]]
+        replay = {"format": fmt, "family": "unmapped row repeating a glyph name", "glyphs": [s2.glyph_name for s2 in srcs]}
+        chk.case(key=("dupname-unmapped", fmt), nontrivial=True)
+        chk.traces_validated += 1
+        total += 1
+        try:
+            _, font = build.build(cfg, srcs, reload=False, fea=False)
+            data = build.font_bytes(font)
+        except Exception:
+            refused += 1
+            continue
+        for p in validate_font.validate(data, expect_names=None if "svg" in fmt else True,
+                                        ctx=f"{fmt}, an unmapped row repeating the glyph name {dup.glyph_name}: "):
+            chk.violation(p, replay)
+    chk.notes["duplicate_name_rows_refused"] = refused
     chk.notes["fonts_validated_inprocess"] = total
     chk.sample({"formats": FORMATS, "scenarios": n_sc})
     # maximum_color outputs
